@@ -38,6 +38,8 @@ type scenario struct {
 	// ResyncAfter > 0: every hook answer carries resyncAfterSeconds (also answered when the number of
 	// desired kids is even)
 	ResyncAfter int64 `json:"resyncAfter,omitempty"`
+	// EchoAnnotations: the hook builds each desired child from the one it observed (annotations echoed)
+	EchoAnnotations bool `json:"echoAnnotations,omitempty"`
 }
 
 type kindCfg struct {
@@ -222,6 +224,9 @@ func (sc *scenario) parentObject(kids []kidCfg, rev, extra string) sim.Obj {
 	if sc.Finalize {
 		spec["finalize"] = "step"
 	}
+	if sc.EchoAnnotations {
+		spec["echoAnnotations"] = true
+	}
 	if sc.ResyncAfter > 0 {
 		spec["resyncAfter"] = sc.ResyncAfter
 	} else if len(kids)%2 == 0 {
@@ -354,6 +359,7 @@ func genScenario(rng *rand.Rand, id string) *scenario {
 		e := edit{Op: ops[rng.Intn(len(ops))], Kid: rng.Intn(8), Value: fmt.Sprintf("w%d", i)}
 		sc.Edits = append(sc.Edits, e)
 	}
+	sc.EchoAnnotations = rng.Intn(5) == 0
 	if rng.Intn(5) == 0 {
 		// the parent is deleted and created again under the same name (new UID) while the
 		// ControllerRevisions of the previous incarnation are still there
